@@ -237,7 +237,13 @@ def loop_state_rule(chk, rule, lib, name_re, floor_loops=1):
         n += 1
         nl += len(loops)
         lost = loopstate.lost_iterations(f, p1)
-        chk.obligation(rule, not lost, key=(name, "loop-state"), sample={"function": name, "loops": len(loops)})
+        stale = loopstate.stale_state_copy(f, p1)
+        chk.obligation(rule, not lost and not stale, key=(name, "loop-state"), sample={"function": name, "loops": len(loops)})
+        if stale:
+            (arg_, rg_, ld_, h_) = stale[0]
+            chk.finding(Finding(rule, o.name, name, "stale-state-copy:%s" % arg_.lower(),
+                                "the loop at %s reads its chaining state from the frame copy [%+d..%+d) that was filled from [%s] before the loop (`%s`), never writes that copy, and stores the new state through %s instead: every block of a call starts from the state of the first one" % (o.line_of(key[1], h_), rg_[0], rg_[1], arg_.lower(), ld_.text.strip(), arg_.lower()),
+                                loc=o.line_of(key[1], ld_.addr)))
         if lost:
             (k, ld, st_, h) = lost[0]
             chk.finding(Finding(rule, o.name, name, "loop-state:%s%+d" % (k[0].lower(), k[1]),
@@ -630,3 +636,51 @@ def shuffle_mask_rule(chk, rule, lib, name_re):
                             dtext = " (e.g. `%s` at %s)" % (j.text.strip(), f.obj.line_of(f.sec, da))
             chk.finding(Finding(rule, f.obj.name, name, "shuffle-mask", "`%s`: on some path the control operand of the byte shuffle was last written by something other than a load of constant data%s - a byte-order mask that is loaded once and then clobbered shuffles later blocks with garbage" % (i.text.strip(), dtext), loc=f.obj.line_of(f.sec, i.addr)))
     return n, nshuf
+
+
+def align_up_rule(chk, rule, mods):
+    """A pointer into a caller-provided object that is aligned by masking must be rounded *up*: `(p + A-1) & -A` stays
+    inside the object when the object has A-1 spare bytes; `p & -A` steps in front of it and overlaps whatever lies
+    before (the frame buffer of the multi-hash contexts sits right behind the interim digests)."""
+    from report import Finding
+    n = 0
+    for src, M in sorted(mods.items()):
+        for F in M.defined():
+            for I in F.all_insts():
+                if I.op != "inttoptr":
+                    continue
+                a = F.resolve(I.ops[0])
+                if not (isinstance(a, ir.Inst) and a.op == "and"):
+                    continue
+                c = F.const_int(a.ops[1])
+                x = a.ops[0]
+                if c is None:
+                    c = F.const_int(a.ops[0])
+                    x = a.ops[1]
+                if c is None:
+                    continue
+                cm = c & 0xFFFFFFFFFFFFFFFF
+                A = (~cm & 0xFFFFFFFFFFFFFFFF) + 1
+                if A < 2 or A & (A - 1) or A > 4096:
+                    continue
+                # x must be add(ptrtoint(p), K >= A-1)
+                xi = F.resolve(x)
+                K = 0
+                base = xi
+                if isinstance(xi, ir.Inst) and xi.op == "add":
+                    k1, k2 = F.const_int(xi.ops[0]), F.const_int(xi.ops[1])
+                    if k2 is not None:
+                        K, base = k2, F.resolve(xi.ops[0])
+                    elif k1 is not None:
+                        K, base = k1, F.resolve(xi.ops[1])
+                if not (isinstance(base, ir.Inst) and base.op == "ptrtoint"):
+                    continue
+                root, off = F.ptr_root(base.ops[0])
+                if not (isinstance(root, dict) and root.get("k") == "a"):
+                    continue           # only pointers into a caller's object are judged
+                n += 1
+                ok = K >= A - 1
+                chk.obligation(rule, ok, key=(src, F.name, I.id), sample={"unit": src, "function": F.name, "alignment": A, "added_before_masking": K})
+                if not ok:
+                    chk.finding(Finding(rule, src, F.name, "align-down:%d" % A, "a pointer into the caller's context is aligned to %d bytes by masking after adding only %d: the result can lie up to %d bytes in front of the field it was taken from and overlaps the data stored before it" % (A, K, A - 1 - K), loc=I.loc()))
+    return n
